@@ -620,27 +620,29 @@ Proof.
   rewrite (pred_loop_run _ _ _ _ _ Hrun). eapply pred_loop_missing_close; eauto.
 Qed.
 
-(* parseFilterExpr:  primary '[' ...  *)
-Lemma filter_expr_open_trunc : forall f n st o st1 st2,
-  primary_b f pexpr n st = Ok (o, st1) ->
-  typ st1 = ILBracket -> pnext st1 = Ok st2 -> cannot_start (typ st2) = true ->
-  is_err (filter_expr_b f pexpr n st).
+(* parseFilterExpr:  primary, then the predicate loop: after k complete
+   predicates,  primary[p1]...[pk][   and   primary[p1]...[pk][e  *)
+Lemma filter_expr_open_trunc : forall k f n st o st1 acc' st' st2,
+  primary_b (k + S f) pexpr n st = Ok (o, st1) ->
+  pred_run o st1 acc' st' k ->
+  typ st' = ILBracket -> pnext st' = Ok st2 -> cannot_start (typ st2) = true ->
+  is_err (filter_expr_b (k + S f) pexpr n st).
 Proof.
-  intros f n st o st1 st2 Hp Ht Hnext Hbad. unfold filter_expr_b. rewrite Hp. cbn [cbind].
-  rewrite is_typ_refl by exact Ht. rewrite skip_item_right by exact Ht.
-  rewrite Hnext. cbn [cbind]. apply is_err_bind. apply Hexpr. exact Hbad.
+  intros k f n st o st1 acc' st' st2 Hp Hrun Ht Hnext Hbad.
+  unfold filter_expr_b. rewrite Hp. cbn [cbind].
+  eapply pred_run_open_trunc; eauto.
 Qed.
 
-Lemma filter_expr_missing_close : forall f n st o st1 st2 c st3,
-  primary_b f pexpr n st = Ok (o, st1) ->
-  typ st1 = ILBracket -> pnext st1 = Ok st2 -> pexpr (Some o) st2 = Ok (c, st3) ->
+Lemma filter_expr_missing_close : forall k f n st o st1 acc' st' st2 c st3,
+  primary_b (k + S f) pexpr n st = Ok (o, st1) ->
+  pred_run o st1 acc' st' k ->
+  typ st' = ILBracket -> pnext st' = Ok st2 -> pexpr (Some acc') st2 = Ok (c, st3) ->
   typ st3 <> IRBracket ->
-  filter_expr_b f pexpr n st = Err "has an invalid token".
+  filter_expr_b (k + S f) pexpr n st = Err "has an invalid token".
 Proof.
-  intros f n st o st1 st2 c st3 Hp Ht Hnext He Hc. unfold filter_expr_b. rewrite Hp. cbn [cbind].
-  rewrite is_typ_refl by exact Ht. rewrite skip_item_right by exact Ht.
-  rewrite Hnext. cbn [cbind]. rewrite He. cbn [cbind].
-  rewrite skip_item_wrong by exact Hc. reflexivity.
+  intros k f n st o st1 acc' st' st2 c st3 Hp Hrun Ht Hnext He Hc.
+  unfold filter_expr_b. rewrite Hp. cbn [cbind].
+  eapply pred_run_missing_close; eauto.
 Qed.
 
 (* ---- '(' : parenthesised expression ---- *)
